@@ -6,7 +6,7 @@ LEVEL = "model_checking"
 UNITS = ["src/sp/transport/tcp/tcp.c", "src/sp/transport/ipc/ipc.c", "src/sp/transport/socket/sockfd.c", "src/core/listener.c", "src/sp/protocol/*/ (receive callbacks)", "src/supplemental/websocket/websocket.c (C16)"]
 RULE = "Single steps with the wire bytes fully symbolic: handshake (any 8 bytes), length prefix (any 64-bit value x any RECVMAXSZ), protocol headers by class with symbolic payload, accept result (any nng_err)."
 BOUNDS = "one step per query; protocol headers up to 16 hop words"
-OUTSIDE = "udp transport; long hostile sessions (locality of each step is what is decided); http parsers are C16"
+OUTSIDE = "udp connection handshake (CREQ/CACK) and timers; long hostile sessions (locality of each step is what is decided); http parsers are C16"
 GROUP_WITNESS = False  # re-uses subsets of other properties' sweeps; each query still needs its own witness
 ASSUMPTIONS = ["as in C01/C04/C07/C08/C13"]
 ENV = C01.ENV
@@ -39,6 +39,20 @@ def queries(tier):
     for q in C13.queries(tier):
         if q.name.startswith(("xreq-rx", "xsurv-rx")):
             qs.append(q)
+    # udp: one arriving datagram, every byte symbolic, through the real udp_rx_cb
+    UENV = ["env_alloc.c", "env_misc.c", "env_sync.c", "env_aio.c", "env_msg.c", "env_pipe.c", "env_idmap.c", "env_libc.c"]
+    UTUS = ["core/list.c", "core/lmq.c"]
+    for op, opn in ((0, "data"), (3, "disc"), (4, "unknown")):
+        for nb in ((0, 7, 8, 9, 12, 16) if op == 0 else (7, 8, 12)):
+            for frm in (0, 1):
+                for waiter in ((0, 1) if (op != 4 and frm == 0) else (0,)):
+                    d = {"OP": op, "NB": nb, "FROM": frm}
+                    if waiter:
+                        d["WAITER"] = 1
+                    qs.append(Query("udp-rx-%s-nb%d-%s%s" % (opn, nb, "stranger" if frm else "peer", "-waiter" if waiter else ""), "c11/udp_rx.c", tus=UTUS, env=UENV,
+                                    defs=d, cdefs=["-DENV_MSG_CAP=24"], unwind=30, unwind_rules=KIT_RULES, timeout=300, group="c11/udp_rx.c#" + opn,
+                                    params={"transport": "udp", "opcode": opn, "datagram_bytes": nb, "from": "unknown address" if frm else "established peer",
+                                            "receive_pending": bool(waiter), "header_and_payload": "symbolic"}))
     qs.append(Query("listener-accept-any-result", "c14/listener_accept.c", tus=["core/list.c", "core/options.c"], env=["env_alloc.c", "env_misc.c", "env_sync.c", "env_aio.c", "env_libc.c"], defs={}, unwind=10,
                     unwind_rules=KIT_RULES, timeout=300, params={"kernel": "listener_accept_cb", "result": "any nng_err"}))
     seen = set()
